@@ -49,6 +49,10 @@ PROPS = {
             "rule": PIPE_RULE},
     "C16": {"lean": ["C16"], "expected": ["Tables"], "streams": [{"name": "dialog", "gen": "dialog"}],
             "rule": "exhaustive assignments of Call-ID, tags and URIs from small alphabets x both orientations x request/response x decorations, plus random long identifiers; oracle: bijection between abstract dialog keys and implementation identifiers; non-trivial = identifier produced"},
+    "C11": {"lean": ["C11"], "expected": ["Reader"], "streams": [{"name": "frame", "gen": "frame", "args": {"focus": "frame"}}],
+            "rule": "generated message sequences under scripted segmentations (exhaustive single/double cuts of short streams, random multi-cuts down to 1-byte segments) through ParseMessage on one bufio.Reader; non-trivial = at least one message extracted; distinct by op line"},
+    "C10": {"lean": ["C10"], "expected": ["Reader"], "streams": [{"name": "udpbuf", "gen": "frame", "args": {"focus": "udpbuf"}}, {"name": "pool", "gen": "pool"}],
+            "rule": "every datagram parsed through the real UDP parse loop in a clean and in a dirty 64 KiB buffer (cut / over- / under-declared datagrams), plus exhaustive and random Alloc/Free histories on the real pool; non-trivial = datagram accepted; distinct by op line"},
     "C14": {
         "lean": ["C14"], "expected": ["Tables"],
         "streams": [STD, {"name": "codec", "gen": "codec"}],
